@@ -148,28 +148,27 @@ Definition jump_targets_known (ops : list op) : bool :=
                     | KJump l | KJnz l _ => match label_index ops l with Some _ => true | None => false end
                     | _ => true end) ops.
 
-Fixpoint reach (fuel : nat) (stab : PM.t (list nat)) (n : nat) (work : list nat) (seen : PS.t) : option PS.t :=
+(* the worklist of simplify_cfg; successors are computed on the fly as in the Rust code *)
+Fixpoint reach (fuel : nat) (ops : list op) (n : nat) (work : list nat) (seen : PS.t) : option PS.t :=
   match fuel with
   | O => None
   | S f =>
     match work with
     | [] => Some seen
     | i :: w =>
-        if PS.mem (ikey i) seen then reach f stab n w seen
-        else let ss := match PM.find (ikey i) stab with Some l => l | None => [] end in
-             reach f stab n (filter (fun s => andb (Nat.ltb s n) (negb (PS.mem (ikey s) seen))) ss ++ w)
+        if PS.mem (ikey i) seen then reach f ops n w seen
+        else reach f ops n (filter (fun s => andb (Nat.ltb s n) (negb (PS.mem (ikey s) seen))) (succs ops i) ++ w)
                    (PS.add (ikey i) seen)
     end
   end.
 
-Definition succ_table (ops : list op) : PM.t (list nat) :=
-  fold_left (fun m it => match it with (i, o, ss) => PM.add (ikey i) ss m end) (items_of ops) (PM.empty _).
+Definition cfg_seen (ops : list op) : option PS.t :=
+  let n := length ops in reach (3 * n + 3) ops n [0%nat] PS.empty.
 
 Definition cfg_keep (ops : list op) : option (list bool) :=
-  let n := length ops in
-  match reach (3 * n + 3) (succ_table ops) n [0%nat] PS.empty with
+  match cfg_seen ops with
   | None => None
-  | Some seen => Some (map (fun i => PS.mem (ikey i) seen) (seq 0 n))
+  | Some seen => Some (map (fun i => PS.mem (ikey i) seen) (seq 0 (length ops)))
   end.
 
 Definition simplify_cfg (ops : list op) : pass_res :=
